@@ -48,9 +48,9 @@ LEVEL_TEXT = ("Exploration by stress: purity is checked by snapshots around ever
 LEVEL_NOTE = "CPython 3.12 with the GIL: data races below bytecode granularity cannot occur; what is explored is interleaving at line granularity inside ofxtools code."
 DESIGN_REF = "DESIGN.md §3 C17"
 MIN_COUNTERS = {"quick": {"baseline_items": 800, "dirty_results_compared": 2400, "thread_results_compared": 800, "input_snapshots_compared": 5000,
-                          "cross_thread_switches": 400, "switch_edges": 20, "cold-thread_results_compared": 1500, "cold_cross_thread_switches": 400},
+                          "cross_thread_switches": 400, "switch_edges": 20, "cold-thread_results_compared": 800, "cold_cross_thread_switches": 400},
                 "thorough": {"baseline_items": 6000, "dirty_results_compared": 18000, "thread_results_compared": 12000, "input_snapshots_compared": 40000,
-                             "cross_thread_switches": 3000, "switch_edges": 40, "cold-thread_results_compared": 15000, "cold_cross_thread_switches": 3000}}
+                             "cross_thread_switches": 3000, "switch_edges": 40, "cold-thread_results_compared": 5000, "cold_cross_thread_switches": 3000}}
 
 # classes whose documents contain warn-only strings (over-long values are accepted with a warning - also while other threads write)
 NAG_CLASSES = {"BANKACCTFROM", "BANKACCTTO", "CCACCTFROM", "CCACCTTO", "INVACCTFROM", "INVACCTTO", "PAYEE", "STMTTRN", "SECINFO", "STMTRS", "CCSTMTRS", "INVSTMTRS",
@@ -63,7 +63,7 @@ def shards(tier):
 
 
 def timeout(tier):
-    return 420 if tier == "quick" else 2400
+    return 900 if tier == "quick" else 5400
 
 
 # ---------------------------------------------------------------- items
@@ -350,11 +350,11 @@ def coldthreads_main(argv):
     if only != "-":
         items = [it for it in items if it["id"] == only]
     elif tier == "quick":
-        items = [it for it in items if it["kind"] != "roundtrip"][: 30]
+        items = [it for it in items if it["kind"] != "roundtrip"][: 24]
     items = [it for it in items if it.get("cls") != "OFX" or only != "-"]  # whole-OFX instances cost minutes under 8 instrumented threads
     imm = Imm()
     results = [dict() for _ in range(T)]
-    deadline = time.time() + (45 if tier == "quick" else 400)
+    deadline = time.time() + (150 if tier == "quick" else 240)  # only a guard: the quick tier is bounded by its 24 items
     stop = [False]
 
     def decide():
